@@ -55,6 +55,9 @@ func (w *World) RefGroup(rname string) string {
 		return rname
 	case rname == "t.p":
 		return ""
+	case strings.HasPrefix(rname, "t.c.") && w.Cfg.Group == "tagged":
+		// c.$k.$id carries the same group template as a.$id, with the tag at another token position
+		return "x." + rname[strings.LastIndexByte(rname, '.')+1:]
 	}
 	return rname
 }
@@ -121,6 +124,13 @@ func NewWorld(cfg Cfg, extraA ...res.Option) *World {
 	default:
 		s.Handle("a.$id", aopts...)
 		w.ABase = "t.a"
+	}
+	if cfg.Group == "tagged" {
+		// a second pattern with the same group template, its tag at a different position
+		s.Handle("c.$k.$id", res.Group("x.${id}"), res.GetModel(func(r res.ModelRequest) {
+			w.CB(r.Query(), r.Group(), w.RefGroup(r.ResourceName()))
+			r.Model(map[string]int{"v": 3})
+		}))
 	}
 	s.Handle("b", res.GetModel(func(r res.ModelRequest) {
 		w.CB(r.Query(), r.Group(), w.RefGroup(r.ResourceName()))
